@@ -560,7 +560,7 @@ func b2i(b bool) int {
 }
 
 func suiteVP8L(rep *Report) error {
-	rep.Rule = "streams: (a) webp.Encode Lossless outputs over colour class x alpha class x size (1x1, 1xN, Nx1, sides around 2^k, 320x320) x Quality {0,10,25,50,75,90,100} x Method 0..6 x Exact, VP8L payload extracted; (b) testdata lossless files and corpus/vp8l/*.hex; (c) streams of a random VP8L writer (any transform subset/order, tile bits 2..9, mode nibble 0..15, palettes 1..256, cache bits 1..11, meta codes, simple/single/normal codes, max_symbol, repeat codes; one third with a deliberate defect); (d) mutations of (a)-(c): bit flips, byte sets, truncations, fills, appended bytes. Each stream is decoded by lossless.DecodeVP8L and by the Lean spec decoder Webp.Spec.VP8L.decode; the lines (ok w h alpha pixel-digests | err header|bitstream) are compared; for (a) both decoders' pixels are also compared with the source image (alpha-0 pixels normalised unless Exact). non-trivial = the spec decoder got past the 5-byte header; distinct = FNV of the payload"
+	rep.Rule = "streams: (a) webp.Encode Lossless outputs over colour class x alpha class x size (1x1, 1xN, Nx1, sides around 2^k, 320x320) x Quality {0,10,25,50,75,90,100} x Method 0..6 x Exact, VP8L payload extracted; (b) testdata lossless files and corpus/vp8l/*.hex; (c) streams of a random VP8L writer (any transform subset/order, tile bits 2..9, mode nibble 0..15, palettes 1..256, cache bits 1..11, meta codes, simple/single/normal codes, max_symbol, repeat codes; one third with a deliberate defect; every tenth stream is a picture of width 1..8 dense in short 2-D distance codes, incl. those whose offset maps to a distance below 1); (d) mutations of (a)-(c): bit flips, byte sets, truncations, fills, appended bytes. Each stream is decoded by lossless.DecodeVP8L and by the Lean spec decoder Webp.Spec.VP8L.decode; the lines (ok w h alpha pixel-digests | err header|bitstream) are compared; for (a) both decoders' pixels are also compared with the source image (alpha-0 pixels normalised unless Exact). Every Go decode runs under a 20 s deadline: a call that does not return is a finding (C05 hang:DecodeVP8L, and C03 vp8l-accept:go-hang-spec-ok when the spec decodes the stream) and ends the suite. non-trivial = the spec decoder got past the 5-byte header; distinct = FNV of the payload"
 	v := &vp8lRun{rep: rep, mins: map[string]vp8lMin{}, kept: map[string][]Finding{}, totals: map[string]int{}, phase: map[string]float64{}}
 	finish := func() error {
 		mf := map[string]string{}
@@ -715,7 +715,7 @@ func suiteVP8L(rep *Report) error {
 func replayVP8L(in map[string]any) int {
 	hs, _ := in["hex"].(string)
 	data := unhx(hs)
-	g, pm := guard(func() string { return goVP8L(data) })
+	g, pm := guardT(func() string { return goVP8L(data) })
 	l, err := RunDriver([]string{"vp8l " + hs, "vp8linfo " + hs})
 	fmt.Printf("go:   %s %s\n", g, pm)
 	if err != nil {
@@ -723,6 +723,9 @@ func replayVP8L(in map[string]any) int {
 		return 2
 	}
 	fmt.Printf("lean: %s\ninfo: %s\n", l[0], l[1])
+	if g == "hang" {
+		return 1
+	}
 	if w, h, _ := vp8lDims(data); len(data) >= 5 && w*h <= 64 {
 		gp, _ := guard(func() string { return goVP8LPx(data) })
 		lp, _ := RunDriver([]string{"vp8lpx " + hs})
